@@ -127,6 +127,15 @@ fn force_rcvbuf(fd: i32, bytes: i32) {
     }
 }
 
+/// A loopback address of this harness process's own (127.0.0.0/8 is all loopback): the in-process server and its clients
+/// live on it, so that a stray datagram which another test process on this host sends to a reused port of 127.0.0.1
+/// (its flooding clients have exited while their server still answers) can reach neither our server — which would
+/// count it as an invalid request — nor our clients.
+pub fn rig_ip() -> std::net::Ipv4Addr {
+    let pid = std::process::id();
+    std::net::Ipv4Addr::new(127, 101 + ((pid / 62500) % 100) as u8, 1 + ((pid / 250) % 250) as u8, 1 + (pid % 250) as u8)
+}
+
 impl Rig {
     /// Must be called from a named thread (Server::new unwraps the thread name).
     pub fn new(cfg: RigCfg, nclients: usize) -> Rig {
@@ -135,7 +144,7 @@ impl Rig {
 
     /// the same with a health-check listener on `hc_port`
     pub fn new_hc(cfg: RigCfg, nclients: usize, hc_port: Option<u16>) -> Rig {
-        let sock = MioUdp::bind(&"127.0.0.1:0".parse().unwrap()).expect("bind server socket");
+        let sock = MioUdp::bind(&SocketAddr::new(std::net::IpAddr::V4(rig_ip()), 0)).expect("bind server socket");
         force_rcvbuf(sock.as_raw_fd(), 64 << 20);
         let addr = sock.local_addr().unwrap();
         let mut mc = MemoryConfig::new(addr.port());
@@ -146,6 +155,7 @@ impl Rig {
         mc.kms_protection = KmsProtection::Plaintext;
         mc.num_workers = 1;
         mc.health_check_port = hc_port;
+        mc.interface = rig_ip().to_string();
         if let Some(st) = cfg.status {
             mc.status_interval = Duration::from_secs(st);
         }
@@ -154,7 +164,7 @@ impl Rig {
         let server = Server::new(&mc, sock, queue.clone());
         let mut clients = vec![];
         for _ in 0..nclients {
-            let c = UdpSocket::bind("127.0.0.1:0").unwrap();
+            let c = UdpSocket::bind(SocketAddr::new(std::net::IpAddr::V4(rig_ip()), 0)).unwrap();
             c.set_nonblocking(true).unwrap();
             force_rcvbuf(c.as_raw_fd(), 16 << 20);
             clients.push(c);
@@ -163,7 +173,7 @@ impl Rig {
     }
 
     pub fn add_client(&mut self) -> usize {
-        let c = UdpSocket::bind("127.0.0.1:0").unwrap();
+        let c = UdpSocket::bind(SocketAddr::new(std::net::IpAddr::V4(rig_ip()), 0)).unwrap();
         c.set_nonblocking(true).unwrap();
         force_rcvbuf(c.as_raw_fd(), 16 << 20);
         self.clients.push(c);
